@@ -216,8 +216,8 @@ func runC05(c *core.Ctx) {
 	// the committee loop of validatePartialSigMsgForSlot: the flag only becomes true under id equality
 	// edge trigger in basePartialSigMsgProcessing
 	nApp := atCalls(c, "C05-R3", bp+"basePartialSigMsgProcessing", "append", []Req{
-		{"has-quorum-now", "T(ssv-spec/ssv.PartialSigContainer.HasQuorum@2(p2, p1.Message.Messages[_].SigningRoot))", "a root is reported only when the container has a quorum for it after adding"},
-		{"no-quorum-before", "F(ssv-spec/ssv.PartialSigContainer.HasQuorum(p2, p1.Message.Messages[_].SigningRoot))", "a root is reported only on the first quorum (edge trigger) — otherwise every later share re-submits"},
+		{"has-quorum-now", "T(ssv-spec/ssv.PartialSigContainer.HasQuorum@*(p2, p1.Message.Messages[_].SigningRoot))", "a root is reported only when the container has a quorum for it after adding"},
+		{"no-quorum-before", "F(ssv-spec/ssv.PartialSigContainer.HasQuorum*(p2, p1.Message.Messages[_].SigningRoot))", "a root is reported only on the first quorum (edge trigger) — otherwise every later share re-submits"},
 	})
 	c.Min("C05-R3", nApp, 1, "root-report sites in basePartialSigMsgProcessing")
 	atCalls(c, "C05-R3", bp+"basePartialSigMsgProcessing", "ssv-spec/ssv.PartialSigContainer.AddSignature", []Req{
